@@ -235,7 +235,8 @@ class ThreadSim(object):
 
     # ---- oracle
     def judge(self):
-        keys = sorted(set(s["key"] for s in self.sc["entities"]))
+        keys = sorted(set(s["key"] for s in self.sc["entities"]) |
+                      set(k_ for s in self.sc["entities"] for k_ in (s.get("enc_keys") or [])))
         r = mkrng(self.sc["seed"], "mutations")
         for u in sorted(self.urls, key=lambda x: x["i"]):
             parts = urllib.parse.urlsplit(u["url"])
@@ -407,6 +408,10 @@ def generate(seed, prop, tier):
             ents.append({"kind": "sp", "name": "sp%d" % i, "key": 3 + i, "enc_keys": [], "tenant": "a"})
         else:
             ents.append({"kind": "idp", "name": "idp%d" % i, "key": i})
+    for e_ in ents:
+        if r.chance(0.35):
+            # separate encryption key pair(s) next to the signing key (documented `encryption_keypairs`)
+            e_["enc_keys"] = r.pick([[8], [9, 10], [11]])
     if r.chance(0.4):
         # one entity of the process uses a longer RSA key than the fixtures' usual 1024 bits
         r.pick(ents)["key"] = r.pick([12, 13])
